@@ -23,6 +23,11 @@ func TestC12(t *testing.T) {
 				sc := PoolSc{Size: size, Rounds: []PoolRound{{Submitters: subs}, {Submitters: []int{3, 2}}}, Gated: gated,
 					Sched: []int{5, 1, 4, 2, 8, 3, 0, 7, 6, 2, 2, 9, 1}, DurMs: []int{3, 0, 7, 1, 12}}
 				evalCase(r, "each-size", sc, chk)
+				if gated && size >= 2 {
+					// fewer early tasks than workers, late tasks submitted during Wait
+					sc2 := PoolSc{Size: size, Rounds: []PoolRound{{Submitters: []int{size - 1}}, {Submitters: []int{1}}}, Gated: true, Late: size + 1, Sched: []int{1, 0, 2}}
+					evalCase(r, "submit-during-wait", sc2, chk)
+				}
 			}
 		}
 	}
